@@ -492,7 +492,7 @@ pub fn main(ctx: &Ctx) -> ! {
     let cfg = BfsCfg {
         max_depth: 64,
         max_states: 50_000_000,
-        max_secs: ctx.tier.pick(45.0, 600.0),
+        max_secs: ctx.tier.pick(400.0, 600.0),
     };
     let samples = Samples::new(4);
     let root = run_history(&ops, &[], cap).unwrap().unwrap();
